@@ -182,7 +182,9 @@ where
     /// Moves remainder commits to output queue.
     async fn flush_commits(&mut self) -> BackendResult<()> {
         self.queued.reserve(self.to_visit.len());
-        for id in self.to_visit.drain(..) {
+        // A commit that isn't recorded in any operation may have been reached
+        // through more than one successor.
+        for id in self.to_visit.drain(..).unique() {
             let commit = self.store.get_commit_async(&id).await?;
             self.queued.push_back(CommitEvolutionEntry {
                 commit,
